@@ -312,6 +312,39 @@ func CheckInput(c *core.Check, src []byte, entries []entry, vec map[string]any) 
 		if m := wellFormed(o1.diags, len(src)); m != "" {
 			return bad("ill-formed-diagnostic", m)
 		}
+		// an unusable result needs an error diagnostic: a parse that reports no error must not
+		// contain the parser's "invalid expression" placeholder
+		if !o1.diags.HasErrors() {
+			var root hclsyntax.Node
+			switch r := o1.result.(type) {
+			case hclsyntax.Expression:
+				root = r
+			case *hcl.File:
+				if r != nil {
+					if b, ok := r.Body.(*hclsyntax.Body); ok {
+						root = b
+					}
+				}
+			}
+			if root != nil && !isNil(root) {
+				placeholder := false
+				ow := run(func() (any, hcl.Diagnostics) {
+					hclsyntax.VisitAll(root, func(n hclsyntax.Node) hcl.Diagnostics {
+						if _, ok := n.(*hclsyntax.ExprSyntaxError); ok {
+							placeholder = true
+						}
+						return nil
+					})
+					return 1, nil
+				})
+				if ow.panic != nil {
+					return bad("panic/walk", fmt.Sprint(ow.panic))
+				}
+				if placeholder {
+					return bad("unusable-without-error", "the result contains an invalid-expression placeholder but no error diagnostic was reported")
+				}
+			}
+		}
 		// diagnostics with in-bounds ranges can be rendered with their source snippet
 		if len(o1.diags) > 0 {
 			or := run(func() (any, hcl.Diagnostics) {
